@@ -275,6 +275,11 @@ def check_call(contract, func, args, kwargs=None, extra_locals=None):
         result = None
     locs = dict(getattr(func, '_last_locals', {}) or {})
     locs.update(extra_locals or {})
+    cg = getattr(contract, 'concrete_ghosts', None)
+    if cg is not None and raised is None:
+        # concrete values of the contract's ghost names (what the ghost code defines them to be), computed from the arguments
+        # before the call, the result and the locals at return
+        locs.update(cg(snap, result, locs))
     env = Env(snap, result, locs, raised)
     env.unchanged = {k: (isinstance(args[k], np.ndarray) and np.array_equal(args[k], snap[k], equal_nan=True) and args[k].dtype == snap[k].dtype) if isinstance(snap[k], np.ndarray) else True
                      for k in args}
